@@ -312,8 +312,18 @@ func genOp(t *rapid.T, name string, poolLen int) Op {
 	op := Op{Name: name}
 	if name == "lit" {
 		n := rapid.IntRange(0, 6).Draw(t, "n")
+		long := rapid.IntRange(0, 11).Draw(t, "longLit") == 0
+		if long {
+			// a long literal (8..130 elements, mostly distinct with some repeats): crosses size thresholds of
+			// fast paths (Distinct, Sort, Concat buffers ...)
+			n = rapid.SampledFrom([]int{8, 9, 10, 16, 17, 31, 33, 64, 65, 130}).Draw(t, "longN")
+		}
 		op.Lit = make([]int, n)
 		for i := range op.Lit {
+			if long {
+				op.Lit[i] = (i * 7) % (n - 2)
+				continue
+			}
 			op.Lit[i] = rapid.IntRange(-2, 5).Draw(t, "x")
 		}
 		op.Cap = rapid.SampledFrom([]int{0, 0, 1, 2, 5}).Draw(t, "cap")
@@ -337,6 +347,9 @@ func genOp(t *rapid.T, name string, poolLen int) Op {
 	op.Src = pick("src")
 	op.Src2 = pick("src2")
 	op.N = rapid.IntRange(0, 12).Draw(t, "n")
+	if rapid.IntRange(0, 9).Draw(t, "bigN") == 0 {
+		op.N = rapid.SampledFrom([]int{15, 16, 17, 32, 63, 64, 65, 129}).Draw(t, "nBig")
+	}
 	op.E = rapid.IntRange(-2, 5).Draw(t, "e")
 	op.A = rapid.IntRange(-2, 3).Draw(t, "a")
 	op.M = rapid.IntRange(1, 4).Draw(t, "m")
